@@ -18,8 +18,10 @@ package main
 
 import (
 	"bufio"
+	"context"
 	"errors"
 	"fmt"
+	"io"
 	"os"
 	"strconv"
 	"strings"
@@ -98,13 +100,36 @@ func (r *rec) OnLeaveYield(d int, n duct.AstYield) error {
 	return r.on(fmt.Sprintf("-yield:%d:%s", d, n.Type))
 }
 
+type wrapped struct {
+	k     int
+	cause error
+}
+
+func (w wrapped) Error() string { return "E" + strconv.Itoa(w.k) }
+func (w wrapped) Unwrap() error { return w.cause }
+
 func visit(p program, k int) (line string) {
 	defer func() {
 		if e := recover(); e != nil {
 			line = "panic"
 		}
 	}()
-	mine := errors.New("E" + strconv.Itoa(k))
+	// the error a callback returns is the caller's business: plain, or one of the well-known sentinels, or a wrapper of
+	// one (a visitor that reads its configuration and runs out of input, a cancelled sub-request, …). Whatever it is,
+	// Apply must return that very error value.
+	var mine error
+	switch k % 5 {
+	case 1:
+		mine = io.EOF
+	case 2:
+		mine = fmt.Errorf("E%d: %w", k, io.EOF)
+	case 3:
+		mine = fmt.Errorf("E%d: %w", k, context.Canceled)
+	case 4:
+		mine = wrapped{k, io.ErrUnexpectedEOF}
+	default:
+		mine = errors.New("E" + strconv.Itoa(k))
+	}
 	r := &rec{k: k, err: mine}
 	m := p.build()
 	err := m.Apply(r)
@@ -112,7 +137,7 @@ func visit(p program, k int) (line string) {
 	switch {
 	case err == nil:
 	case err == mine:
-		es = mine.Error()
+		es = "E" + strconv.Itoa(k) // the very value the callback returned
 	default:
 		es = "other:" + strings.ReplaceAll(err.Error(), " ", "_")
 	}
